@@ -31,9 +31,15 @@ class Oracle:
         self.clause_props = clause_props or {}
         self.violation: dict[str, Any] | None = None
         self.current_op: dict[str, Any] | None = None
+        self.current_pred_ok: bool | None = None
+        self.fail_prop: str | None = None
 
     def flag(self, clause: str, signature: str, detail: Any, prop: str | None = None) -> None:
         if self.violation is None:
+            if self.fail_prop and self.current_pred_ok is False and clause in ("ctx-attrs", "ctx-function", "catalog", "effect", "variables"):
+                # the statement was predicted to fail, so any change it made belongs to "failures change nothing"
+                prop = self.fail_prop
+                signature = "failed-statement-changed/" + signature
             label = (self.current_op or {}).get("label") or ((self.current_op or {}).get("st") or {}).get("label")
             if label:
                 signature = f"{label}/{signature}"
@@ -250,6 +256,7 @@ def run_serial_case(case: dict[str, Any], oracle: Oracle, *, snapshot_every: boo
             sim.note(inv, op["s"], op["k"], (op.get("st") or {}).get("t"), out.get("ok"), out.get("errno"), fp(out.get("rows")) if out.get("rows") is not None else None)
             pred = predict(model, op)
             oracle.current_op = op
+            oracle.current_pred_ok = bool(pred["ok"])
             n_done += 1
             t = (op.get("st") or {"t": op["k"]})["t"]
             kinds.append(t + ("!" if not pred["ok"] else ""))
